@@ -12,11 +12,16 @@ CONSTANT MaxOperands
 VARIABLES first, rest, k, acc
 vars == <<first, rest, k, acc>>
 
-a_ == <<97>>  b_ == <<98>>  c_ == <<99>>
+a_ == <<97>>  b_ == <<98>>  c_ == <<99>>  lim_ == <<108, 105, 109>>
+TheCtx == Obj(<<lim_>>, <<IntV(3)>>)
+EvalC(qq, d) == EvalCtx(qq, d, TheCtx)
 S(t) == Str(t)
 Simple == { Q("$", <<Child(SName(a_)), Child(SWild)>>), Q("$", <<Child(SName(b_)), Child(SWild)>>), Q("$", <<Descend(SName(c_))>>),
             Q("$", <<Child(SName(a_)), Child(SSlice(<<1>>, <<>>, <<>>))>>), Q("$", <<Child(SName(b_)), Child(SIndex(0))>>),
-            Q("$", <<Child(SName(a_)), Child(SFilter(ECmp(">", OQ(Q("@", <<>>)), OLit(IntV(1)))))>>) }
+            Q("$", <<Child(SName(a_)), Child(SFilter(ECmp(">", OQ(Q("@", <<>>)), OLit(IntV(1)))))>>),
+            \* a fake-root operand and one that reads the caller's filter context
+            Q("^", <<Child(SFilter(ETest(Q("@", <<Child(SName(a_))>>)))), Child(SName(a_)), Child(SWild)>>),
+            Q("$", <<Child(SName(b_)), Child(SFilter(ECmp(">=", OQ(Q("@", <<>>)), OQ(Q("_", <<Child(SName(lim_))>>)))))>>) }
 \* no boolean/number look-alike pairs: the statement does not say which equality "also produced" means
 DocSeq == << Obj(<<a_, b_, c_>>, <<Arr(<<IntV(1), IntV(2), IntV(3), IntV(2)>>), Arr(<<IntV(2), IntV(3), IntV(4)>>), IntV(3)>>),
              Obj(<<a_, b_>>, <<Arr(<<S(a_), Arr(<<IntV(1)>>), Obj(<<c_>>, <<IntV(2)>>), IntV(2)>>), Arr(<<Arr(<<IntV(1)>>), S(a_), Obj(<<c_>>, <<IntV(2)>>)>>)>>),
@@ -27,11 +32,11 @@ NDocs == Len(DocSeq)
 Init == /\ first \in Simple
         /\ \E n \in 0..(MaxOperands - 1) : rest \in [1..n -> {[op |-> o, q |-> s] : o \in {"|", "&"}, s \in Simple}]
         /\ k = 0
-        /\ acc = [d \in 1..NDocs |-> Eval(first, DocSeq[d])]
+        /\ acc = [d \in 1..NDocs |-> EvalC(first, DocSeq[d])]
 
 Step == /\ k < Len(rest)
         /\ acc' = [d \in 1..NDocs |->
-                     LET r == Eval(rest[k + 1].q, DocSeq[d]) IN
+                     LET r == EvalC(rest[k + 1].q, DocSeq[d]) IN
                      IF rest[k + 1].op = "|" THEN acc[d] \o r
                      ELSE SelectSeq(acc[d], LAMBDA n : \E j \in 1..Len(r) : JsonEq(n.v, r[j].v))]
         /\ k' = k + 1
@@ -40,13 +45,13 @@ Next == Step
 Spec == Init /\ [][Next]_vars /\ WF_vars(Next)
 Terminal == k = Len(rest)
 
-FoldAgrees == Terminal => \A d \in 1..NDocs : acc[d] = Compound(first, rest, DocSeq[d], Obj(<<>>, <<>>))
+FoldAgrees == Terminal => \A d \in 1..NDocs : acc[d] = Compound(first, rest, DocSeq[d], TheCtx)
 \* an intersection never adds nodes, a union never removes any
 Monotone == [][\A d \in 1..NDocs : IF rest[k + 1].op = "|" THEN Len(acc'[d]) >= Len(acc[d]) ELSE Len(acc'[d]) <= Len(acc[d])]_vars
 Terminates == <>Terminal
 
-ASSUME PrintT(ToJson([docs |-> [d \in 1..NDocs |-> [doc |-> DocSeq[d], nodes |-> <<>>]]]))
+ASSUME PrintT(ToJson([docs |-> [d \in 1..NDocs |-> [doc |-> DocSeq[d], nodes |-> <<>>]], ctx |-> TheCtx]))
 Export == Terminal => PrintT(ToJson([first |-> first, rest |-> rest, text |-> RenderCompound(first, rest, StdStyle),
                                       text2 |-> RenderCompound(first, rest, [StdStyle EXCEPT !.dot = TRUE, !.sp = <<32>>]),
-                                      res |-> [d \in 1..NDocs |-> [i \in 1..Len(acc[d]) |-> acc[d][i].loc]]]))
+                                      res |-> [d \in 1..NDocs |-> [i \in 1..Len(acc[d]) |-> acc[d][i].v]]]))
 =============================================================================
